@@ -287,6 +287,26 @@ def corpus_cases(configs, flags=(1, 0), reuse=None):
     return out
 
 
+def simple_reuse_cases(dss, configs, schemes, reuse, flags=(1, 0), namings=("ints", "letters"), env="nocplex"):
+    """cases() with the same reuse record on every case (kinds 'flagflip', 'prealg')"""
+    out = cases(dss, configs, schemes, flags=flags, namings=list(namings), env=env)
+    for c in out:
+        c["reuse"] = dict(reuse)
+    return out
+
+
+def symmetric_datasets():
+    """small datasets with several optimal consensus / several best local optima (opposite or rotated opinions)"""
+    out = []
+    for p in grids.orders(3):
+        rev = list(reversed(p))
+        out.append([p, rev])
+        out.append([p, rev, p, rev])
+    out += [[[[1], [2]], [[2], [1]]], [[[1], [2], [3]], [[2], [3], [1]], [[3], [1], [2]]],
+            [[[1, 2]], [[1], [2]], [[2], [1]]], [[[1], [2, 3]], [[2, 3], [1]]]]
+    return out
+
+
 def refused_first_cases(dss, configs, schemes, flags=(1, 0)):
     """the SAME algorithm object is first given an incomplete dataset under a scheme its starting algorithms refuse
     (the call raises), then the measured run under a scheme they accept"""
